@@ -78,7 +78,7 @@ PROPS = {
     "C01": {
         "lean_modules": ["Cachelito.Props.C01", "Cachelito.Props.C01b", "Cachelito.Props.C01c", "Cachelito.Props.T07", "Cachelito.Props.T08", "Cachelito.Props.T09", "Cachelito.Props.T10", "Cachelito.Props.T11", "Cachelito.Props.T12", "Cachelito.Props.T17", "Cachelito.Props.T17m", "Cachelito.Props.T18", "Cachelito.Props.S01"],
         "streams": [core_stream(nontrivial=["hit", "re-store"]), macro_stream(nontrivial=["hit"]),
-                    sched_stream(nontrivial=['served-call-source-checked'], quick=(6, 8, 60), what="L3: scheduled runs of 2-3 real threads (calls racing with stores of the same key and with invalidations): every call returns the function's value for its own arguments, and a call served from the cache has a legitimate source (a store for the same arguments that no completed invalidation separates from it)")],
+                    sched_stream(nontrivial=['served-call-source-checked'], quick=(6, 8, 60), what="L3: scheduled runs of 2-3 real threads (calls racing with stores of the same key and with invalidations): every call returns the function's value for its own arguments, and a call served from the cache has a legitimate source (a store for the same arguments that no completed invalidation separates from it)"), hammer_stream()],
         "monitors": ["C01"],
         "rule": "L1: generated engine histories; non-trivial = a lookup that returned a value or a store that replaced one. L2: generated call histories on real generated functions; non-trivial = a call served from the cache; distinct by (config, pre-state, op) resp. (op, observation)",
         "level_text": "Lean theorems: in every history of every flavour/policy/configuration a lookup returns exactly the value of the latest store under that key (never a value stored under another key, never a replaced one); the store always holds the latest value per key. Tied to the code by per-step full-state comparison (engines) and per-call comparison of returned values, traces and cache dumps (generated functions); monitors: returned value = value of the latest store (L1), = the deterministic body's value for the arguments (L2).",
@@ -215,7 +215,7 @@ PROPS = {
     },
     "C11": {
         "lean_modules": ["Cachelito.Props.C11", "Cachelito.Props.T17", "Cachelito.Props.T17m", "Cachelito.Props.T18", "Cachelito.Props.S01"],
-        "streams": [macro_stream(nontrivial=["c11-call"])],
+        "streams": [macro_stream(nontrivial=["c11-call"]), hammer_stream()],
         "monitors": ["C11"],
         "rule": "generated call histories on real generated functions (sync global, thread-local, async) with logged invalidate_on checks whose verdict changes between calls; non-trivial = a call of a function with invalidate_on",
         "level_text": "Lean theorems: a value is served from the cache iff the lookup hit and the check answered false (then the body does not run); a stale entry re-executes the body and whatever is held under the key afterwards is the fresh entry (the old value never survives, all flavours); the next call's check sees the fresh value. Tied to the code by check logs, execution counts and cache dumps.",
